@@ -20,7 +20,7 @@ RULE = (
 MANIFEST = {
     "text": "Metamorphic search on the canonicalized graph itself (not just the string): two descriptions of one molecule must canonicalize to graphs with identical node->(element, mass, radical, class) maps and identical edge sets. Finds wrong use of the bliss permutation, label-dependent colours, relabelling by an inverse map. Cannot prove it.",
     "note": "Trusted: abstract model permute(); own renderers for the molfile route.",
-    "technique": "property-based testing: metamorphic relation on canonicalize_molecule output (Hypothesis, 16 shards)",
+    "technique": "property-based testing: metamorphic relation on canonicalize_molecule output across constructor / V3000 / V2000 / own TUCAN spelling (Hypothesis, 16 shards) + sweep over all 117 neighbouring element pairs",
 }
 ASSUMPTIONS = ["search, not proof"]
 
